@@ -422,8 +422,12 @@ inline std::string tidy_network(sim::Rng& g)
     for (int i = 0; i < extra; i++) { long long a = (long long)g.below(np), b = (long long)g.below(np), c = (long long)g.below(np); if (a == b) b = (b + 1) % np; if (c == a || c == b) c = (c + 1) % np; if (c == a || c == b) c = (c + 1) % np; obs.push_back({(long long)g.below(6), a, b, c, (long long)g.below(1000)}); }
     std::stable_sort(obs.begin(), obs.end(), [](const O& x, const O& y) { return x.from < y.from; });
     for (auto& o : obs) stk("ko", {o.kind, o.from, o.to, o.third, o.v});
+    // levelling and vector clusters in either order (a cluster without a covariance matrix of its own may follow one
+    // that has one)
+    bool vec_first = g.chance(1, 2), vec = g.chance(1, 3);
+    if (vec && vec_first) stk("kv", {(long long)g.below(3), 3, (long long)g.below(1000)});
     for (int P = 3; P < np; P++) if (g.chance(1, 2)) stk("kh", {(long long)g.below(3), P, (long long)g.below(1000)});
-    if (g.chance(1, 3)) stk("kv", {(long long)g.below(3), 3, (long long)g.below(1000)});
+    if (vec && !vec_first) stk("kv", {(long long)g.below(3), 3, (long long)g.below(1000)});
     return build_gkf(q);
 }
 
